@@ -186,6 +186,11 @@ End AdaSite.
 (* lobpcg (lobpcg.py:23): X = np.random.normal(size=(n, k)) on the GLOBAL generator *)
 Definition lobpcg_site (nk : nat) (f : list V -> Out) : prog Out := NpRandom nk (fun z => Ret (f z)).
 
+(* the repaired call site: X = randn(n, k, key = PRNGKey(42)) - a keyed draw with the default key, exactly like the
+   default start vectors; no key parameter is added to the public signature *)
+Definition lobpcg_site_keyed (nk : nat) (f : list V -> Out) : prog Out := Randn (Some (PRNGKey 42)) nk (fun z => Ret (f z)).
+Lemma lobpcg_site_keyed_keyed nk f : keyed (lobpcg_site_keyed nk f). Proof. cbn; auto. Qed.
+
 Lemma hutch_site_keyed {S_} c s nz mi key (st0 : S_) fin : keyed (hutch_site c s nz mi key st0 fin).
 Proof. apply pbind_keyed; [apply keyed_loop_keyed|cbn; auto]. Qed.
 Lemma slq_site_keyed key nz f : keyed (slq_site key nz f). Proof. cbn; auto. Qed.
